@@ -256,9 +256,14 @@ func C13(c *core.Ctx) {
 	U["ins1"] = mk("ins", 3, 1, "", "", 0, "", "")
 	U["ins2"] = mk("ins", 3, 2, "", "", 0, "", "")
 	U["del"] = mk("del", 5, 2, "", "", 0, "", "")
-	lists := [][]string{{}, {"aa"}, {"nucT", "ins1"}, {"nucG", "ins2", "del"}, {"aa", "ins1", "del"}, {"ins2"}}
+	// the same amino-acid replacement reached through two different codons
+	U["aaK1"] = mk("aa", 4, 0, "A", "K", 2, "g", "nuc:G4A;nuc:C5A;nuc:T6A")
+	U["aaK2"] = mk("aa", 4, 0, "A", "K", 2, "g", "nuc:G4A;nuc:C5A;nuc:T6G")
+	lists := [][]string{{}, {"aa"}, {"nucT", "ins1"}, {"nucG", "ins2", "del"}, {"aa", "ins1", "del"}, {"ins2"}, {"aaK1"}, {"aaK2", "del"}}
 	posVar := func(m string) (int, bool) {
 		switch {
+		case strings.HasPrefix(m, "aa:g:A2K"):
+			return 4, true
 		case strings.HasPrefix(m, "aa:"):
 			return 1, true
 		case strings.HasPrefix(m, "nuc:"):
@@ -339,6 +344,47 @@ func C13(c *core.Ctx) {
 		if len(bad) > 20 {
 			break
 		}
+	}
+	// a threshold exactly equal to an occurring frequency k/n keeps the mutation, for every 1 <= k <= n <= 30
+	// (floating point: k/n compared with the threshold, not k with threshold*n)
+	{
+		var badT []string
+		maxN := 30
+		step := 1
+		if c.Tier != "thorough" {
+			step = 2
+		}
+		for nseq := 1; nseq <= maxN; nseq += step {
+			for k := 1; k <= nseq; k++ {
+				thr := float64(k) / float64(nseq)
+				var sl [][]string
+				var vfeed []eval.Value
+				for i := 0; i < nseq; i++ {
+					if i < k {
+						sl = append(sl, []string{"A10T"})
+						vfeed = append(vfeed, mkAnno(c, fmt.Sprintf("q%d", i), int64(i), U["del"]))
+					} else {
+						sl = append(sl, []string{})
+						vfeed = append(vfeed, mkAnno(c, fmt.Sprintf("q%d", i), int64(i)))
+					}
+				}
+				n++
+				if agg, err := evalAggregateSNPs(c, false, sl, thr); err != nil {
+					badT = append(badT, "snps: "+err.Error())
+				} else if !strings.Contains(agg, "A10T,") {
+					badT = append(badT, fmt.Sprintf("snps: %d of %d sequences carry the SNP, --threshold %v (= that frequency): dropped", k, nseq, thr))
+				}
+				if agg, err := evalAggregateVariants(c, false, vfeed, -1, -1, false, thr, "ref"); err != nil {
+					badT = append(badT, "variants: "+err.Error())
+				} else if !strings.Contains(agg, "del:5:2,") {
+					badT = append(badT, fmt.Sprintf("variants: %d of %d sequences carry the mutation, --threshold %v (= that frequency): dropped", k, nseq, thr))
+				}
+			}
+			if len(badT) > 10 {
+				break
+			}
+		}
+		c.Ob("R3/threshold-equal-to-an-occurring-frequency-keeps", len(badT) == 0, funcPos(c, "pkg/snps", "aggregateWriteOutput"), "%s", first(badT, 4))
 	}
 	c.Count("feeds_evaluated", n)
 	c.Ob("R1-R5/variants/aggregate-equals-counted-rows", len(bad) == 0, funcPos(c, "pkg/variants", "AggregateWriteVariants"), "%s", first(bad, 4))
